@@ -1,0 +1,17 @@
+//go:build !verif
+
+package cs
+
+import (
+	"math/big"
+
+	csolver "github.com/consensys/gnark/constraint/solver"
+)
+
+// verification hooks (see verif_hook_on.go); empty and inlined away in normal builds.
+
+func verifHintHook(_ *system, _ csolver.HintID, _ *big.Int, _, _ []*big.Int, err error) error {
+	return err
+}
+
+func verifPostSolveHook(_ *system, _ any, _ any) {}
